@@ -23,6 +23,38 @@ type PureCase struct {
 	Message  interface{}            `json:"message"`
 	Bindings map[string]interface{} `json:"bindings"`
 	Shape    string                 `json:"shape"`
+	// IntNumbers: the whole numbers of the message and of the given
+	// bindings are Go integers (int64, int), as in values an ECMAScript
+	// action produced or a Go host built - not the float64 of JSON
+	IntNumbers bool `json:"intNumbers,omitempty"`
+}
+
+// intify turns whole float64 numbers into int64 (every third into int).
+func intify(v interface{}, n *int) interface{} {
+	switch vv := v.(type) {
+	case float64:
+		if vv == float64(int64(vv)) && vv < 1e15 && vv > -1e15 {
+			*n++
+			if *n%3 == 0 {
+				return int(vv)
+			}
+			return int64(vv)
+		}
+		return vv
+	case map[string]interface{}:
+		m := make(map[string]interface{}, len(vv))
+		for _, k := range jsongen.SortedKeys(vv) {
+			m[k] = intify(vv[k], n)
+		}
+		return m
+	case []interface{}:
+		a := make([]interface{}, len(vv))
+		for i, x := range vv {
+			a[i] = intify(x, n)
+		}
+		return a
+	}
+	return v
 }
 
 var invalidPatterns = []interface{}{
@@ -80,6 +112,7 @@ func genPure(t *rapid.T) PureCase {
 		k := rapid.SampledFrom([]string{"?u1", "?u2", "?u3", "cfg", "k!", "?u4"}).Draw(t, "bk")
 		c.Bindings[k] = jsongen.Value(t, jsongen.Opts{Depth: 1, Width: 2}, "bv")
 	}
+	c.IntNumbers = rapid.IntRange(0, 3).Draw(t, "intNumbers") == 0
 	return c
 }
 
@@ -289,6 +322,13 @@ func checkPure(c PureCase) (v ev.Verdict) {
 		var bs match.Bindings
 		if c.Bindings != nil {
 			bs = match.Bindings(jsongen.Rebuild(c.Bindings, perm).(map[string]interface{}))
+		}
+		if c.IntNumbers {
+			k := 0
+			m = intify(m, &k)
+			if bs != nil {
+				bs = match.Bindings(intify(map[string]interface{}(bs), &k).(map[string]interface{}))
+			}
 		}
 		sp, sm, sb := jsongen.Snap(p), jsongen.Snap(m), jsongen.Snap(map[string]interface{}(bs))
 		if pm, ok := p.(map[string]interface{}); ok {
